@@ -5618,8 +5618,13 @@ int32_t matrixSslEncodeClientHello(ssl_t *ssl, sslBuf_t *out,
         if (ssl->haveCookie)
         {
             *c = (unsigned char) ssl->cookieLen; c++;
-            Memcpy(c, ssl->cookie, ssl->cookieLen);
-            c += ssl->cookieLen;
+            if (ssl->cookieLen > 0)
+            {
+                /* an empty cookie in the HelloVerifyRequest leaves
+                   ssl->cookie NULL */
+                Memcpy(c, ssl->cookie, ssl->cookieLen);
+                c += ssl->cookieLen;
+            }
         }
         else
         {
